@@ -23,6 +23,9 @@ LEVEL = "proof"
 DEPENDS = [
     ("C12", {"only_rules": ["SETTER"], "configs": ["default"],
              "why": "a limit that cannot be lifted makes JsonParser reject valid documents"}),
+    ("C03", {"configs": ["default"],
+             "why": "string bodies, digits and literals bottom out in the matching primitives (ANY = Position::skip, ranges, "
+                    "strings): they must advance by whole characters and not move on failure"}),
     ("C04", {"why": "'the token tree mirrors the document, each pair with its exact span' is observed through the Pairs "
                     "views (iteration, as_span, into_inner, JSON dump), whose agreement with the token stream C04 decides"}),
 ]
